@@ -1,4 +1,5 @@
 import RactorModel.Lemmas.FactoryHooks
+import RactorModel.Lemmas.FactoryStop
 
 /-!
 Discard-handler identity (C13): the factory's handler and every worker slot's copy agree after
@@ -9,10 +10,12 @@ installed when it was made (the one of the latest `UpdateSettings` the factory h
 namespace Factory
 
 /-- an event that may be logged while `h` is the installed handler: anything except a discard
-addressed to somebody else and except the installation of another handler -/
+addressed to somebody else, the installation of another handler, and a queued job abandoned by
+`post_stop` -/
 def evOk (h : Option Nat) : Ev → Bool
   | .discard _ _ h' => h' == h
   | .installed _ => false
+  | .abandoned _ => false
   | _ => true
 
 /-- the history grew by events that are fine for the installed handler `h` -/
@@ -614,27 +617,30 @@ theorem extE_foldlW {h : Option Nat} (f : Env → WP → Env) (hf : ∀ e p, Ext
   | nil => exact ExtE.refl h e
   | cons p l ih => rw [List.foldl_cons]; exact (hf e p).trans (ih _)
 
-theorem extE_dropQueued (h : Option Nat) (e : Env) (j : Job) : ExtE h e (Env.dropQueued h e j) := by
-  unfold Env.dropQueued; split
-  · exact extE_discard e rfl _ j
-  · exact extE_emit e _ rfl
-
-theorem extE_dropWorkerQueue {h : Option Nat} (e : Env) (p : WP) : ExtE h e (e.dropWorkerQueue p) := by
+theorem dropWorkerQueue_avail (e : Env) (p : WP) (h : p.isAvailable = true) : e.dropWorkerQueue p = e := by
+  unfold WP.isAvailable at h
+  simp only [Bool.and_eq_true, List.isEmpty_iff] at h
   unfold Env.dropWorkerQueue
-  exact extE_foldl _ (fun e j => extE_emit e _ rfl) _ e
+  rw [h.2]; rfl
 
-theorem hq_postStop {h : Option Nat} (w : W) (hs : HS h w) : HQ h w w.postStop := by
+theorem foldl_dropWorkerQueue_avail (pool : List WP) (e : Env) (h : ∀ p ∈ pool, p.isAvailable = true) :
+    pool.foldl Env.dropWorkerQueue e = e := by
+  induction pool generalizing e with
+  | nil => rfl
+  | cons p ps ih =>
+    rw [List.foldl_cons, dropWorkerQueue_avail e p (h p (List.mem_cons_self ..))]
+    exact ih e (fun x hx => h x (List.mem_cons_of_mem _ hx))
+
+/-- `post_stop` entered with every slot free and the factory queue empty: nothing is discarded,
+nothing abandoned -/
+theorem hq_postStop {h : Option Nat} (w : W) (hs : HS h w) (ha : ∀ p ∈ w.pool, p.isAvailable = true)
+    (hq : w.queue = []) : HQ h w w.postStop := by
   unfold W.postStop
   simp only
-  have hf := hs.fac
-  subst hf
-  refine ⟨⟨rfl, fun p hp => by cases hp⟩, ?_⟩
-  have h1 := extE_foldl (Env.dropQueued w.handler) (extE_dropQueued w.handler) w.queue w.env
-  have h2 := extE_foldlW (h := w.handler) Env.dropWorkerQueue extE_dropWorkerQueue w.pool
-    (w.queue.foldl (Env.dropQueued w.handler) w.env)
-  have h3 := extE_foldlW (h := w.handler) (fun e p => e.stop p.actor) (fun e p => extE_stop e p.actor) w.pool
-    (w.pool.foldl Env.dropWorkerQueue (w.queue.foldl (Env.dropQueued w.handler) w.env))
-  exact (h1.trans (h2.trans h3)).trans (ExtE.of_log rfl)
+  refine ⟨⟨hs.fac, fun p hp => by cases hp⟩, ?_⟩
+  rw [hq, List.foldl_nil, foldl_dropWorkerQueue_avail w.pool w.env ha]
+  have h3 := extE_foldlW (h := h) (fun e p => e.stop p.actor) (fun e p => extE_stop e p.actor) w.pool w.env
+  exact h3.trans (ExtE.of_log rfl)
 
 theorem extE_dropMsg {h : Option Nat} (e : Env) (m : FMsg) : ExtE h e (e.dropMsg m) := by
   cases m with
@@ -744,25 +750,37 @@ installation, and no discard of the history went anywhere else -/
 structure HInv (h0 : Option Nat) (w : W) : Prop where
   hs : HS (curOf h0 w.env.log) w
   ok : discardsOk h0 w.env.log = true
+  clean : ∀ id, Ev.abandoned id ∉ w.env.log
 
 theorem HInv.step {h0 : Option Nat} {w w' : W} (hi : HInv h0 w) (q : ∀ h, HS h w → HQ h w w') : HInv h0 w' := by
   have q0 := q _ hi.hs
   obtain ⟨new, hl, hok⟩ := q0.ext
   have hc : curOf h0 w'.env.log = curOf h0 w.env.log := by rw [hl, curOf_append, curOf_ok _ _ hok]
-  refine ⟨by rw [hc]; exact q0.hs, ?_⟩
-  rw [hl, discardsOk_append, hi.ok, discardsOk_ok _ _ hok]
-  rfl
+  refine ⟨by rw [hc]; exact q0.hs, ?_, ?_⟩
+  · rw [hl, discardsOk_append, hi.ok, discardsOk_ok _ _ hok]
+    rfl
+  · intro id hm
+    rw [hl] at hm
+    rcases List.mem_append.mp hm with hm | hm
+    · exact hi.clean id hm
+    · have := hok _ hm
+      cases this
 
 theorem hinv_setHandler {h0 : Option Nat} (w : W) (hd : Option Nat) (hi : HInv h0 w) : HInv h0 (w.setHandler hd) := by
   have hl : (w.setHandler hd).env.log = w.env.log ++ [Ev.installed hd] := rfl
   have hc : curOf h0 (w.setHandler hd).env.log = hd := by rw [hl, curOf_append]; rfl
-  refine ⟨?_, ?_⟩
+  refine ⟨?_, ?_, ?_⟩
   · rw [hc]
     refine ⟨rfl, ?_⟩
     intro x hx
     obtain ⟨y, _, rfl⟩ := List.mem_map.mp hx
     rfl
   · rw [hl, discardsOk_append, hi.ok]; rfl
+  · intro id hm
+    rw [hl] at hm
+    rcases List.mem_append.mp hm with hm | hm
+    · exact hi.clean id hm
+    · simp at hm
 
 theorem hinv_handleMsg {h0 : Option Nat} (w : W) (m : FMsg) (hi : HInv h0 w) : HInv h0 (w.handleMsg m) := by
   cases m with
@@ -801,13 +819,18 @@ theorem hq_handleMsg {h : Option Nat} (w : W) (m : FMsg) (hm : ∀ hd, m ≠ .se
   | getNumActiveWorkers => exact HQ.same hs rfl rfl rfl
   | getAvailableCapacity => exact HQ.same hs rfl rfl rfl
 
-theorem hinv_loopStep {h0 : Option Nat} (w w' : W) (hi : HInv h0 w) (hl : w.loopStep = some w') : HInv h0 w' := by
+theorem hinv_loopStep {h0 : Option Nat} (w w' : W) (hi : HInv h0 w) (si : StopInv w) (hl : w.loopStep = some w') :
+    HInv h0 w' := by
   unfold W.loopStep at hl
   split at hl
   · simp at hl
-  · split at hl
-    · simp only [Option.some.injEq] at hl; subst hl
-      exact hi.step (fun _ hs => hq_postStop w hs)
+  · rename_i hg
+    split at hl
+    · rename_i hsig
+      simp only [Option.some.injEq] at hl; subst hl
+      have hst : w.stopped = false := by cases hh : w.stopped <;> simp_all
+      have := si.idle hsig hst
+      exact hi.step (fun _ hs => hq_postStop w hs this.2.1 this.2.2)
     · split at hl
       · rename_i who rest _
         simp only [Option.some.injEq] at hl; subst hl
@@ -820,38 +843,41 @@ theorem hinv_loopStep {h0 : Option Nat} (w w' : W) (hi : HInv h0 w) (hl : w.loop
           exact (hinv_handleMsg _ m h1).step (fun _ hs => hq_afterHandle _ hs)
         · simp at hl
 
-theorem hinv_runQ {h0 : Option Nat} (fuel : Nat) (w : W) (hi : HInv h0 w) : HInv h0 (W.runQ fuel w) := by
+theorem hinv_runQ {h0 : Option Nat} (fuel : Nat) (w : W) (hi : HInv h0 w) (si : StopInv w) : HInv h0 (W.runQ fuel w) := by
   induction fuel generalizing w with
   | zero => exact hi
   | succ fuel ih =>
     unfold W.runQ
     cases hl : w.loopStep with
-    | some w' => simp only; exact ih _ (hinv_loopStep w w' hi hl)
+    | some w' => simp only; exact ih _ (hinv_loopStep w w' hi si hl) (stopInv_loopStep w w' si hl)
     | none =>
       simp only
       have h1 : HInv h0 { w with env := w.env.settle } :=
         hi.step (fun _ hs => ⟨hs.of_pool rfl rfl, extE_settle w.env⟩)
       have hs : HInv h0 (W.tryFinishStop { w with env := w.env.settle }) :=
         h1.step (fun _ hs => hq_tryFinishStop _ hs)
+      have ss : StopInv (W.tryFinishStop { w with env := w.env.settle }) :=
+        stopInv_tryFinishStop _ (si.same ⟨rfl, rfl, rfl⟩ rfl rfl rfl)
       split
       · exact hs
-      · exact ih _ hs
+      · exact ih _ hs ss
 
 theorem hinv_send {h0 : Option Nat} (w : W) (m : FMsg) (hi : HInv h0 w) : HInv h0 (w.send m) :=
   hi.step (fun _ hs => hq_send w m hs)
 
-theorem hinv_advanceTo {h0 : Option Nat} (t fuel : Nat) (w : W) (hi : HInv h0 w) : HInv h0 (W.advanceTo t fuel w) := by
+theorem hinv_advanceTo {h0 : Option Nat} (t fuel : Nat) (w : W) (hi : HInv h0 w) (si : StopInv w) :
+    HInv h0 (W.advanceTo t fuel w) := by
   induction fuel generalizing w with
   | zero => exact hi.step (fun _ hs => HQ.same hs rfl rfl rfl)
   | succ fuel ih =>
     unfold W.advanceTo
     split
     · simp only
-      apply ih
-      apply hinv_runQ
       have h1 : HInv h0 { w.setNow w.nextCalc with nextCalc := t + CALCULATE_FREQUENCY * 1000000 } :=
         hi.step (fun _ hs => HQ.same hs rfl rfl rfl)
-      exact hinv_send _ _ h1
+      have s1 : StopInv { w.setNow w.nextCalc with nextCalc := t + CALCULATE_FREQUENCY * 1000000 } :=
+        si.same ⟨rfl, rfl, rfl⟩ rfl rfl rfl
+      exact ih _ (hinv_runQ _ _ (hinv_send _ _ h1) (stopInv_send _ _ s1)) (stopInv_runQ _ _ (stopInv_send _ _ s1))
     · exact hi.step (fun _ hs => HQ.same hs rfl rfl rfl)
 
 theorem hq_finish {h : Option Nat} (w : W) (aid : Nat) (ok : Bool) (hs : HS h w) : HQ h w (w.finish aid ok) := by
@@ -913,43 +939,54 @@ theorem hinv_applyOp {h0 : Option Nat} (w : W) (op : Op) (hi : HInv h0 w) : HInv
     · exact hi
   | nop => exact hi
 
-theorem hinv_ask {h0 : Option Nat} (w : W) (m : FMsg) (hi : HInv h0 w) : HInv h0 (w.ask m) := by
+theorem hinv_ask {h0 : Option Nat} (w : W) (m : FMsg) (hi : HInv h0 w) (si : StopInv w) : HInv h0 (w.ask m) := by
   unfold W.ask
   split
   · exact hi.step (fun _ hs => HQ.same hs rfl rfl rfl)
   · simp only
-    have h1 := hinv_runQ RUN_FUEL _ (hinv_send w m hi)
+    have h1 := hinv_runQ RUN_FUEL _ (hinv_send w m hi) (stopInv_send w m si)
     split
     · exact h1.step (fun _ hs => HQ.same hs rfl rfl rfl)
     · exact h1
 
-theorem hinv_queries {h0 : Option Nat} (w : W) (hi : HInv h0 w) : HInv h0 w.queries := by
+theorem hinv_queries {h0 : Option Nat} (w : W) (hi : HInv h0 w) (si : StopInv w) : HInv h0 w.queries := by
   unfold W.queries
   split
   · exact hi.step (fun _ hs => HQ.same hs rfl rfl rfl)
-  · exact hinv_ask _ _ (hinv_ask _ _ (hinv_ask _ _ (hi.step (fun _ hs => HQ.same hs rfl rfl rfl))))
+  · have s0 : StopInv { w with answers := [] } := si.same ⟨rfl, rfl, rfl⟩ rfl rfl rfl
+    have h0' : HInv h0 { w with answers := [] } := hi.step (fun _ hs => HQ.same hs rfl rfl rfl)
+    have s1 := stopInv_ask _ FMsg.getQueueDepth s0
+    have h1 := hinv_ask _ FMsg.getQueueDepth h0' s0
+    have s2 := stopInv_ask _ FMsg.getNumActiveWorkers s1
+    have h2 := hinv_ask _ FMsg.getNumActiveWorkers h1 s1
+    exact hinv_ask _ _ h2 s2
 
-theorem hinv_stepOp {h0 : Option Nat} (w : W) (op : Op) (t0 tq te : Nat) (hi : HInv h0 w) :
+theorem hinv_stepOp {h0 : Option Nat} (w : W) (op : Op) (t0 tq te : Nat) (hi : HInv h0 w) (si : StopInv w) :
     HInv h0 (w.stepOp op t0 tq te) := by
   unfold W.stepOp
   simp only
   generalize hw1 : W.advanceTo t0 (advanceFuel w t0) w = w1
-  have h1 : HInv h0 w1 := by rw [← hw1]; exact hinv_advanceTo _ _ _ hi
+  have h1 : HInv h0 w1 := by rw [← hw1]; exact hinv_advanceTo _ _ _ hi si
+  have s1 : StopInv w1 := by rw [← hw1]; exact stopInv_advanceTo _ _ _ si
   generalize hw2 : W.runQ RUN_FUEL (w1.applyOp op) = w2
-  have h2 : HInv h0 w2 := by rw [← hw2]; exact hinv_runQ _ _ (hinv_applyOp _ _ h1)
+  have h2 : HInv h0 w2 := by rw [← hw2]; exact hinv_runQ _ _ (hinv_applyOp _ _ h1) (stopInv_applyOp _ _ s1)
+  have s2 : StopInv w2 := by rw [← hw2]; exact stopInv_runQ _ _ (stopInv_applyOp _ _ s1)
   generalize hw3 : W.advanceTo tq (advanceFuel w2 tq) w2 = w3
-  have h3 : HInv h0 w3 := by rw [← hw3]; exact hinv_advanceTo _ _ _ h2
+  have h3 : HInv h0 w3 := by rw [← hw3]; exact hinv_advanceTo _ _ _ h2 s2
+  have s3 : StopInv w3 := by rw [← hw3]; exact stopInv_advanceTo _ _ _ s2
   generalize hw4 : w3.queries = w4
-  have h4 : HInv h0 w4 := by rw [← hw4]; exact hinv_queries _ h3
+  have h4 : HInv h0 w4 := by rw [← hw4]; exact hinv_queries _ h3 s3
+  have s4 : StopInv w4 := by rw [← hw4]; exact stopInv_queries _ s3
   generalize hw5 : W.advanceTo te (advanceFuel w4 te) w4 = w5
-  have h5 : HInv h0 w5 := by rw [← hw5]; exact hinv_advanceTo _ _ _ h4
+  have h5 : HInv h0 w5 := by rw [← hw5]; exact hinv_advanceTo _ _ _ h4 s4
   have h6 : HInv h0 { w5 with lastWq := none } := h5.step (fun _ hs => HQ.same hs rfl rfl rfl)
   exact h6.step (fun _ hs => hq_emit _ _ rfl hs)
 
-theorem hinv_runSteps {h0 : Option Nat} (w : W) (steps : List Step) (hi : HInv h0 w) : HInv h0 (w.runSteps steps) := by
+theorem hinv_runSteps {h0 : Option Nat} (w : W) (steps : List Step) (hi : HInv h0 w) (si : StopInv w) :
+    HInv h0 (w.runSteps steps) := by
   induction steps generalizing w with
   | nil => exact hi
-  | cons s rest ih => exact ih _ (hinv_stepOp w s.op s.t0 s.tq s.te hi)
+  | cons s rest ih => exact ih _ (hinv_stepOp w s.op s.t0 s.tq s.te hi si) (stopInv_stepOp w s.op s.t0 s.tq s.te si)
 
 /-- the handler a case starts with -/
 def initHandler (c : CaseCfg) : Option Nat := if c.cfg.hasHandler then some 0 else none
@@ -967,13 +1004,13 @@ theorem hinv_init (c : CaseCfg) : HInv (initHandler c) (init c) := by
        env := { actors := [], log := [], now := 0, sup := [] },
        nextAid := 0, stopSignal := false, stopped := false, inbox := [], blocked := false, armed := false,
        nextCalc := CALCULATE_FREQUENCY, answers := [], lastWq := none } : W) :=
-    ⟨⟨rfl, fun p hp => by cases hp⟩, rfl⟩
+    ⟨⟨rfl, fun p hp => by cases hp⟩, rfl, fun id hm => by cases hm⟩
   have h1 := hi0.step (fun _ hs => hq_growPool _ c.n hs)
   have h2 := h1.step (fun _ hs => HQ.same (w' := { W.growPool _ c.n with poolSize := c.n }) hs rfl rfl rfl)
   exact h2.step (fun _ hs => hq_emit _ _ rfl hs)
 
 /-- the handler-identity invariant holds after every sequence of operations -/
 theorem hinv_always (c : CaseCfg) (steps : List Step) : HInv (initHandler c) ((init c).runSteps steps) :=
-  hinv_runSteps _ steps (hinv_init c)
+  hinv_runSteps _ steps (hinv_init c) (stopInv_init c)
 
 end Factory
